@@ -205,6 +205,15 @@ def judgeHop (src dst : String) (x y : Float) (h : Hop) : Option String :=
                 match Spec.refForward rs { rd with x0 := 0, y0 := 0 } noShift x y with
                 | some (r0x, r0y) => if distRef sc (ix, iy) (r0x, r0y) ≤ Spec.tolRef then "spherical-tmerc-omits-false-origin-like-proj4js " else ""
                 | none => ""
+              else if rd.kind == .lcc && rs.kind == .longlat && (y.abs - 90.0).abs ≤ 3.0e-9 then
+                -- exactly at the pole lcc (port and proj4js alike) evaluates at a latitude 2e-10 rad
+                -- (1.3 mm on the ground) short of it; the cone's scale there is unbounded, so the
+                -- projected point is millimetres to kilometres from the pole's image
+                let y' := if y < 0 then y + 2.0e-10 * 57.29577951308232 else y - 2.0e-10 * 57.29577951308232
+                match Spec.refForward rs rd noShift x y' with
+                | some (r0x, r0y) =>
+                  if distRef sc (ix, iy) (r0x, r0y) ≤ Spec.tolRef + 1.0e-6 * dr then "lcc-pole-replaced-by-latitude-2e-10-rad-short-like-proj4js " else ""
+                | none => ""
               else if (rd.kind == .tmerc || rd.kind == .utm) && rd.es > 0.009 && dr < 0.02 then
                 -- flattening above 1/222 (only the 1738 ellipsoid `mprts` among the built-in ones):
                 -- the e^6 meridian series of the port (and of proj4js) is a few mm short
